@@ -17,39 +17,39 @@ theorem headEscd_escape (cs : List Char) : headEscd (escapeChars cs) = headEscd 
     · rename_i h; simp [headEscd, isEscd, h]
     · rename_i h; simp [headEscd, isEscd]
 
-theorem destrLoop_cons (c : Char) (l : List Char) (h : (c == '\\' && headEscd l) = false) :
+theorem destrLoopOld_cons (c : Char) (l : List Char) (h : (c == '\\' && headEscd l) = false) :
+    destrLoopOld (c :: l) = c :: destrLoopOld l := by
+  cases l with
+  | nil => simp [destrLoopOld]
+  | cons d r =>
+    simp only [headEscd] at h
+    simp [destrLoopOld, h]
+
+theorem destrLoop_cons (c : Char) (l : List Char) (h : (c == '\\') = false) :
     destrLoop (c :: l) = c :: destrLoop l := by
   cases l with
   | nil => simp [destrLoop]
-  | cons d r =>
-    simp only [headEscd] at h
-    simp [destrLoop, h]
+  | cons d r => simp [destrLoop, h]
 
-theorem destrLoopFixed_cons (c : Char) (l : List Char) (h : (c == '\\') = false) :
-    destrLoopFixed (c :: l) = c :: destrLoopFixed l := by
-  cases l with
-  | nil => simp [destrLoopFixed]
-  | cons d r => simp [destrLoopFixed, h]
-
-theorem destrLoopFixed_escape (s : List Char) : destrLoopFixed (escapeChars s) = s := by
+theorem destrLoop_escape (s : List Char) : destrLoop (escapeChars s) = s := by
   induction s with
-  | nil => simp [escapeChars, destrLoopFixed]
+  | nil => simp [escapeChars, destrLoop]
   | cons c cs ih =>
     simp only [escapeChars]
     split
     · rename_i h
       have : isEscd c = true := by simpa [isEscd] using h
-      simp [destrLoopFixed, this, ih]
+      simp [destrLoop, this, ih]
     · rename_i h
       have hc : (c == '\\') = false := by
         cases hb : (c == '\\') with
         | false => rfl
         | true => simp [hb] at h
-      rw [destrLoopFixed_cons c _ hc, ih]
+      rw [destrLoop_cons c _ hc, ih]
 
-theorem destrLoop_escape (s : List Char) (h : noEscPair s = true) : destrLoop (escapeChars s) = s := by
+theorem destrLoopOld_escape (s : List Char) (h : noEscPair s = true) : destrLoopOld (escapeChars s) = s := by
   induction s with
-  | nil => simp [escapeChars, destrLoop]
+  | nil => simp [escapeChars, destrLoopOld]
   | cons c cs ih =>
     have hcs : noEscPair cs = true := by
       cases cs with
@@ -66,10 +66,10 @@ theorem destrLoop_escape (s : List Char) (h : noEscPair s = true) : destrLoop (e
     split
     · rename_i hsp
       have hesc : isEscd c = true := by simpa [isEscd] using hsp
-      have h1 : destrLoop ('\\' :: c :: escapeChars cs) = destrLoop (c :: escapeChars cs) := by
-        simp [destrLoop, hesc]
-      rw [h1, destrLoop_cons c _ (by rw [headEscd_escape]; exact hpair), ih hcs]
-    · rw [destrLoop_cons c _ (by rw [headEscd_escape]; exact hpair), ih hcs]
+      have h1 : destrLoopOld ('\\' :: c :: escapeChars cs) = destrLoopOld (c :: escapeChars cs) := by
+        simp [destrLoopOld, hesc]
+      rw [h1, destrLoopOld_cons c _ (by rw [headEscd_escape]; exact hpair), ih hcs]
+    · rw [destrLoopOld_cons c _ (by rw [headEscd_escape]; exact hpair), ih hcs]
 
 theorem stripQuotes_stringify (s : List Char) : stripQuotesC (stringify s) = escapeChars s := by
   unfold stringify stripQuotesC
